@@ -542,7 +542,7 @@ func TestC38(t *testing.T) {
 
 	type comboStat struct {
 		success, fail, compared, apisTotal, apisOK int
-		missed                                    []string
+		missed                                     []string
 	}
 	stats := map[combo]*comboStat{}
 	opsSeen, opsSuccess := map[string]int{}, map[string]int{}
